@@ -25,7 +25,6 @@ demo = "demo%s.sh" % SUF if os.path.exists(os.path.join(seed, "demo%s.sh" % SUF)
 rc_with = sh("bash _seed/%s" % demo, wt) if demo else None
 sh(["git", "apply", "-R", patch], wt)
 rc_without = sh("bash _seed/%s" % demo, wt) if demo else None
-ok_tests_clean = sh("go test -vet=off -count=1 ./...", wt) == 0
 confirmed = ok_build and ok_tests and demo and rc_with != 0 and rc_without == 0
 print("build", ok_build, "tests-with-patch", ok_tests, "demo with/without", rc_with, rc_without, "=> confirmed", bool(confirmed))
 det = {}
